@@ -10,7 +10,13 @@
      su: storage takes no broker-offset update within the 1 s timeout in this cycle (storage_beh = fun _ => false)
      rp: a groups-reaper tick follows the cycle;  rm: client.RefreshMetadata returns an error   (both: no effect on
      the model; kept in the tie, like the kafka-version)
-     U = the updates the storage module RECEIVED, D = the deletions it received (ClusterMod.run_s / received). *)
+     U = the updates the storage module RECEIVED, D = the deletions it received (ClusterMod.run_s / received).
+   Third format (worlds outside the two assumptions of `env`: ClusterMod.xenv / xrun):
+           sc3|sc3x <kafka-version index> <ncycles> { <sd> <su> <rp> <rm> <tick> <topics_ok> <k> <topic>*k
+                <nT> { <topic> <parts_ok> <np> { <pid> <leader at refresh|-1> <leader in generateOffsetRequests|-1> <omit>
+                                                 <kerror> <noffs> <off>* } }
+                <nF> <failing broker>*
+                <nX> { <broker> <topic> <pid> <kerror> <noffs> <off>* } }        (blocks a broker adds unasked) *)
 open Model
 open Vutil
 
@@ -73,6 +79,37 @@ let fmt_cycle_s ((pre, o) : bool * (cycle_out * sreq list) outcome) : string =
           "U"; csv (List.map (fun (((tp, p), off), c) -> [z tp; z p; z off; z c]) ups);
           "D"; csv (List.map (fun tp -> [z tp]) dels) ]
 
+let read_xcycle t : bool * xenv =
+  let _sd = next_int t in
+  let _su = next_int t in
+  let _rp = next_int t in
+  let _rm = next_int t in
+  let tk = next_int t = 1 in
+  let topics_ok = next_int t = 1 in
+  let topics = next_list t next_z in
+  let ld s = if s = "-1" then Fail else Good (zs s) in
+  let tb = next_list t (fun t ->
+    let id = next_z t in
+    let ok = next_int t = 1 in
+    let parts = next_list t (fun t ->
+      let p = next_z t in
+      let l1 = next t in
+      let l2 = next t in
+      let om = next_int t = 1 in
+      let err = next_z t in
+      let offs = next_list t next_z in
+      { xp_row = { pr_id = p; pr_leader = ld l1; pr_err = err; pr_offs = offs }; xp_leader_req = ld l2; xp_omit = om }) in
+    { xt_id = id; xt_ok = ok; xt_parts = parts }) in
+  let failing = next_list t next_z in
+  let extras = next_list t (fun t ->
+    let b = next_z t in
+    let tp = next_z t in
+    let p = next_z t in
+    let err = next_z t in
+    let offs = next_list t next_z in
+    ((((b, tp), p), err), offs)) in
+  (tk, xenv_of_tables (if topics_ok then Good topics else Fail) tb failing extras)
+
 let run (line : string) : string =
   let t = toks_of_line line in
   match next t with
@@ -83,4 +120,8 @@ let run (line : string) : string =
     let _kv = next_int t in
     let cycles = next_list t read_cycle_s in
     String.concat " | " (List.map fmt_cycle_s (run_s init_state cycles))
+  | "sc3" | "sc3x" ->
+    let _kv = next_int t in
+    let cycles = next_list t read_xcycle in
+    String.concat " | " (List.map fmt_cycle (xrun init_state cycles))
   | k -> failwith ("drv_cluster: unknown case kind " ^ k)
